@@ -319,6 +319,7 @@ def run(args):
         reqs.append({"mode": "tab", "stmt": t, "id": "7", "ext": True, "hdr": True, "anno": True})
         reqs.append({"mode": "vis", "stmt": t, "id": "7", "anno": True, "bin": False})
         reqs.append({"mode": "vis", "stmt": t, "id": "7", "anno": True, "flat": True})
+        reqs.append({"mode": "tab", "stmt": t, "id": "7", "ext": False, "hdr": True, "anno": True})
     res = run_pool([build.obs], reqs, NCPU, timeout=120)
     model = run_lines([build.modelrun], ["privn\t" + wnode(TX.d_root(p)) for _, _, p, _ in cases])
     dist = {"stream": {}, "pair": {}, "outcome": {}, "private_values": 0, "shared_values": 0, "annotated_values": 0}
@@ -326,11 +327,11 @@ def run(args):
     for ci, (stream, pair, parts, _) in enumerate(cases):
         comp, prop = pair
         t = texts[ci]
-        rp, rt, rv, rf = res[4 * ci: 4 * ci + 4]
+        rp, rt, rv, rf, rc = res[5 * ci: 5 * ci + 5]
         dist["stream"][stream] = dist["stream"].get(stream, 0) + 1
         dist["pair"][comp] = dist["pair"].get(comp, 0) + 1
         case = {"text": t, "ast": json.dumps(parts), "pair": [comp, prop]}
-        if any(k in r for r in (rp, rt, rv, rf) for k in ("panic", "exit", "timeout")):
+        if any(k in r for r in (rp, rt, rv, rf, rc) for k in ("panic", "exit", "timeout")):
             dist["outcome"]["crash"] = dist["outcome"].get("crash", 0) + 1
             V.violation("private-property:crash", case, what="a statement with private properties crashes a conversion")
             continue
@@ -403,6 +404,22 @@ def run(args):
                             % (w, r.get(pcol, ""), r.get(pcol + "-Ref", ""), a_cell, pv, shv_e, len(pn) + len(shn_e), ann))
                     sig = "private-property:tabular-cell-differs" if not (ok and ok_ref) else "annotation:tabular-annotation-differs"
                     bad = (sig, what)
+                    break
+        # IG Core: nested private properties are written as text into the property cell of their value, next to the
+        # primitive private values and one shared value
+        if bad is None and rc.get("err") == OK and rc.get("rows"):
+            for r in rc["rows"][0]:
+                cell = r.get(comp, "")
+                w = next((x for x in per_e if x in cell), None)
+                if w is None:
+                    continue
+                ann, pv, pn = per_e[w]
+                pcell = r.get(prop, "")
+                miss = [x for x in pv + pn if x not in pcell]
+                foreign = [x for w2, (_, pv2, pn2) in per_e.items() for x in pv2 + pn2 if x not in pv + pn and x in pcell]
+                if miss or foreign:
+                    bad = ("private-property:tabular-cell-differs", "IG Core row of value %r: property cell %r; written private properties of the value: %s%s"
+                           % (w, pcell, pv + pn, (" (shows %s of another value)" % foreign) if foreign else ""))
                     break
         if bad is None and rv.get("err") == OK:
             js = json_nodes(rv.get("out", ""))
